@@ -9,3 +9,5 @@ import TlxVerif.Props.C08
 #print axioms TlxVerif.C08.ends_are_partition_at_total
 #print axioms TlxVerif.C08.selection_characterised
 #print axioms TlxVerif.C08.partition_is_weak
+#print axioms TlxVerif.C08.model_roundUp_is_least_power_of_two
+#print axioms TlxVerif.C08.model_sample_sort_determined
